@@ -359,8 +359,8 @@ theorem small_lt_limit : 1000 ≤ 10 ^ intMaxStrDigits := by
 /-- **An int argument** (`type(x) is int`): `i` in 0..255 gives the text `i.0.0.0/<class prefix>`
     (10 → '10.0.0.0/8', 128 → '128.0.0.0/16', 224 → '224.0.0.0/4'); every other int below the
     interpreter's int-to-str digit limit comes back as the argument itself (256, -1); beyond that
-    limit (|i| ≥ 10^4300) the IndexError message cannot be formatted and a TypeError leaves the
-    function. -/
+    limit (|i| ≥ 10^4300) the int cannot be formatted (ValueError inside the `try`) and a
+    TypeError leaves the function from the ValueError handler. -/
 theorem abbrev_int (i : Int) :
     (0 ≤ i ∧ i ≤ 255 →
       cidrAbbrevToVerboseX (.int i) = .ok (.text (dec i.toNat ++ ".0.0.0/".toList ++ dec (classOf i.toNat)))) ∧
